@@ -36,7 +36,7 @@ RULE = (
     "one-field classes are enumerated exhaustively over all source subsets x options x key subsets; non-trivial = some alias source set or some option on"
 )
 
-ARCH = ["any_req", "int_req", "int_def", "opt_none"]
+ARCH = ["any_req", "int_req", "int_def", "opt_none", "any_def"]
 SRC = ["meta", "ann", "ann2", "cfg"]
 
 
@@ -82,7 +82,7 @@ def keymodel(fields, allow, forbid, present):
         if v is MISSING:
             if fd["arch"] in ("any_req", "int_req"):
                 return ("missing", fd["name"])
-            out[fd["name"]] = 7 if fd["arch"] == "int_def" else None
+            out[fd["name"]] = 7 if fd["arch"] in ("int_def", "any_def") else None
         else:
             out[fd["name"]] = v
     return ("ok", out)
@@ -98,7 +98,7 @@ def build(fields, allow, forbid, idx):
 
     ann, ns, aliases = {}, {}, {}
     for fd in fields:
-        t = {"any_req": typing.Any, "int_req": int, "int_def": int, "opt_none": typing.Optional[int]}[fd["arch"]]
+        t = {"any_req": typing.Any, "int_req": int, "int_def": int, "opt_none": typing.Optional[int], "any_def": typing.Any}[fd["arch"]]
         extras = []
         if "ann" in fd["sources"]:
             extras.append(Alias(fd["sources"]["ann"]))
@@ -110,7 +110,7 @@ def build(fields, allow, forbid, idx):
         kw = {}
         if "meta" in fd["sources"]:
             kw["metadata"] = field_options(alias=fd["sources"]["meta"])
-        if fd["arch"] == "int_def":
+        if fd["arch"] in ("int_def", "any_def"):
             kw["default"] = 7
         if fd["arch"] == "opt_none":
             kw["default"] = None
@@ -134,10 +134,10 @@ def build(fields, allow, forbid, idx):
 def wire_ty(fields, allow, forbid, cid):
     fs = []
     for fd in fields:
-        t = {"any_req": "any", "int_req": "int", "int_def": "int", "opt_none": ["opt", "int"]}[fd["arch"]]
+        t = {"any_req": "any", "int_req": "int", "int_def": "int", "opt_none": ["opt", "int"], "any_def": "any"}[fd["arch"]]
         src = {"meta": fd["sources"].get("meta"), "annotated": [fd["sources"][k] for k in ("ann", "ann2") if k in fd["sources"]], "config": fd["sources"].get("cfg")}
         dflt = None
-        if fd["arch"] == "int_def":
+        if fd["arch"] in ("int_def", "any_def"):
             dflt = ["some", ["i", "7"]]
         if fd["arch"] == "opt_none":
             dflt = ["some", None]
@@ -263,7 +263,7 @@ def random_cases(ctx, n):
             if "ann2" in srcs and "ann" not in srcs:
                 srcs.remove("ann2")
             fields.append(field_desc(i, srcs, rng.choice(ARCH)))
-        fields.sort(key=lambda fd: fd["arch"] in ("int_def", "opt_none"))
+        fields.sort(key=lambda fd: fd["arch"] in ("int_def", "opt_none", "any_def"))
         allow, forbid = rng.random() < 0.5, rng.random() < 0.4
         cands = candidates(fields) + ["zz", "None"]
         for _ in range(8):
